@@ -17,6 +17,7 @@ import core
 import zoo
 from koala.flux_finder import flux_finder as ff
 from koala.lattice import INVALID
+from koala import example_graphs as eg
 import translate
 from props.c01 import min_gap, GAP_MIN
 
@@ -164,6 +165,15 @@ def run(ctx):
             base_r, base_c = ff.fluxes_from_ujk(l, u), ff.fluxes_from_ujk(l, u, real=False)
         except Exception:
             continue
+        # the flag selecting the variant in other spellings of the same truth value (the result of a numpy comparison, 0 / 1)
+        for lab, flag, want in (("np.False_", np.False_, base_c), ("np.bool_(False)", np.bool_(False), base_c), ("0", 0, base_c), ("np.True_", np.True_, base_r), ("1", 1, base_r)):
+            try:
+                got = ff.fluxes_from_ujk(l, u, real=flag)
+            except Exception as ex:
+                ctx.impl_violation(f"{name}: fluxes_from_ujk(real={lab}) raises {type(ex).__name__}: {ex}", dict(case=name, lattice=zoo.lat_to_json(l), u=u.tolist(), real=lab)); break
+            if np.iscomplexobj(got) != np.iscomplexobj(want) or not np.allclose(got, want, atol=1e-12):
+                ctx.impl_violation(f"{name}: fluxes_from_ujk(real={lab}) is not the {'complex' if np.iscomplexobj(want) else 'real'} variant", dict(case=name, lattice=zoo.lat_to_json(l), u=u.tolist(), real=lab)); break
+            ctx.case((name, "flag", lab), nontrivial=True)
         for lab, uv in variants.of_array(u):
             keep = np.array(uv).copy()
             try:
@@ -202,6 +212,31 @@ def run(ctx):
         gc.collect()
     core.history_check(ctx, "import numpy as np\nfrom koala import example_graphs as eg, voronization as vz, graph_utils as gu, quasicrystals as qc, phase_diagrams as pdg, hamiltonian as ham\nfrom koala.flux_finder import flux_finder as ff\n\ndef _canon(l):\n    parts = [l.vertices.positions.ravel(), l.edges.indices.ravel().astype(float), l.edges.crossing.ravel().astype(float)]\n    return np.concatenate(parts)\ndef _plaq(l):\n    out = []\n    for p in l.plaquettes:\n        out += [float(len(p.edges))] + [float(x) for x in p.edges] + [float(x) for x in p.directions] + [float(x) for x in p.vertices] + [float(x) for x in p.center]\n    return np.array(out)\n_pts = np.random.default_rng(123).uniform(size=(14, 2))\n", ["ff.fluxes_from_ujk(vz.generate_lattice(_pts), 1 - 2 * (np.arange(42) % 3 == 0))", "ff.fluxes_from_ujk(eg.honeycomb_lattice(3), np.ones(54, dtype=int), real=False)"],
                        label="flux call")
+    # ---- a lattice with more than 65 536 edges (and fewer vertices): bond indices beyond 16 bits.  Judged without the plaquettes' own edge lists: a flipped
+    #      bond changes exactly two fluxes, both of plaquettes through its two end points; gauge moves change nothing; the global product is (-1)^E
+    try:
+        big = eg.square_lattice(182, 181)
+        E_ = big.n_edges
+        ub = (1 - 2 * rng.integers(0, 2, size=E_)).astype(np.int8)
+        base = ff.fluxes_from_ujk(big, ub)
+        rep = lambda what, **kw: ctx.impl_violation(f"square_lattice(182,181) [{big.n_vertices} vertices, {E_} edges]: {what}", dict(case="square_lattice(182,181)", seed=ctx.seed, **kw))
+        ok = True
+        if int(np.prod(base.astype(np.int64))) != (-1) ** E_:
+            rep(f"product of all fluxes is {int(np.prod(base.astype(np.int64)))}, expected (-1)^E"); ok = False
+        for e in ([E_ - 1, E_ - 2, 65536, 65537, 65535] + rng.integers(0, E_, size=6).tolist()) if ok else []:
+            f = ub.copy(); f[e] *= -1
+            changed = np.nonzero(ff.fluxes_from_ujk(big, f) != base)[0]
+            a, b = (int(x) for x in big.edges.indices[e])
+            if len(changed) != 2 or any(a not in big.plaquettes[int(q)].vertices or b not in big.plaquettes[int(q)].vertices for q in changed):
+                rep(f"flipping bond {e} = ({a},{b}) changes the fluxes of plaquettes {changed.tolist()[:6]} - expected exactly the two plaquettes through both of its ends", edge=int(e)); ok = False; break
+        for v in rng.integers(0, big.n_vertices, size=4).tolist() if ok else []:
+            g = ub.copy(); g[np.any(big.edges.indices == v, axis=1)] *= -1
+            if not np.array_equal(ff.fluxes_from_ujk(big, g), base):
+                rep(f"gauge move at vertex {v} changes the fluxes", vertex=int(v)); break
+        ctx.case(("square_lattice(182,181)",), nontrivial=True); ctx.count("lattices_with_more_than_65536_edges")
+        del big
+    except Exception as ex:
+        ctx.impl_violation(f"square_lattice(182,181): raised {type(ex).__name__}: {ex}", dict(case="square_lattice(182,181)"))
     ctx.assumptions.append("numpy integer/complex products of ±1 and ±i are exact")
 
 
